@@ -1,4 +1,5 @@
 import Iauthd.Addr.Proofs
+import Iauthd.Addr.ProofsMask6
 /-
   C13 — netmask parsing and matching are exact.
 
@@ -53,12 +54,47 @@ theorem C13_plain_is_128 (fx : Bool) (a : Addr) :
     ptonWith fx (ntop a 40).1 true false = .ok ⟨(ntop a 40).1.length, canon a, some 128, false⟩ :=
   ntop_pton_wb fx a true
 
-/-- **C13 (documented netmask texts)** — *partial*: three of the documented forms are
-    theorems for all their instances: `*…`, `a.b.c.d/n` (n ≤ 32), `a.b.*`.
-    Not proved (judge only): `a.*`, `a.b.c.*`, partial quads `a.b/n`, the IPv6 forms
-    `x:y::/n` and `x:y:*`.  The IPv6 CIDR form is *false* of the pinned parser for texts
-    with seven groups followed by "::" (`pton_F26_cidr_rejected`); `ptonFixed_F26_cidr` shows
-    the same text accepted after fix_pton_cidr.diff. -/
+/-- **C13 (documented netmask texts)**: every documented form is a theorem for all its instances:
+    `*…` (any number of stars), `a.b.c.d/n` (n ≤ 32), `a.*`, `a.b.*`, `a.b.c.*`,
+    `x:y:*` (one to seven groups; any number of stars) and `<address>/n` (n ≤ 128) for every
+    non-dotted address *in the text the daemon prints for it* (which covers every placement of
+    "::" the printer produces, and the uncompressed eight-group form).
+    What stays with the judge (differential, every run): IPv6 CIDR texts in a spelling the
+    printer would not produce (leading zeros, upper case, a "::" that is not the longest zero
+    run, dotted tails), and partial quads `a.b/n`, which the documentation does not list.
+    The IPv6 CIDR form was *false* of the parser before the repair of F26 for texts with seven
+    groups followed by "::" (`pton_F26_cidr_rejected`; no canonical text has that shape);
+    `ptonFixed_F26_cidr` shows the same text accepted after the repair. -/
+theorem C13_netmask (fx : Bool) :
+    (∀ k wb, ptonWith fx (List.replicate (k + 1) 42) wb false = .ok ⟨k + 1, Addr.zero, setBits wb none 0, false⟩) ∧
+    (∀ o1 o2 o3 o4 n, o1 < 256 → o2 < 256 → o3 < 256 → o4 < 256 → n ≤ 32 →
+      ptonWith fx (quadText o1 o2 o3 o4 ++ 47 :: decOctet n) true false =
+        .ok ⟨(quadText o1 o2 o3 o4 ++ 47 :: decOctet n).length, mapped4 o1 o2 o3 o4, some (96 + n), false⟩) ∧
+    (∀ o1, o1 < 256 →
+      ptonWith fx (decOctet o1 ++ [46, 42]) true false =
+        .ok ⟨(decOctet o1 ++ [46, 42]).length, mapped4 o1 0 0 0, some 104, false⟩) ∧
+    (∀ o1 o2, o1 < 256 → o2 < 256 →
+      ptonWith fx (decOctet o1 ++ 46 :: (decOctet o2 ++ [46, 42])) true false =
+        .ok ⟨(decOctet o1 ++ 46 :: (decOctet o2 ++ [46, 42])).length, mapped4 o1 o2 0 0, some 112, false⟩) ∧
+    (∀ o1 o2 o3, o1 < 256 → o2 < 256 → o3 < 256 →
+      ptonWith fx (decOctet o1 ++ 46 :: (decOctet o2 ++ 46 :: (decOctet o3 ++ [46, 42]))) true false =
+        .ok ⟨(decOctet o1 ++ 46 :: (decOctet o2 ++ 46 :: (decOctet o3 ++ [46, 42]))).length, mapped4 o1 o2 o3 0,
+          some 120, false⟩) ∧
+    (∀ wb g gs k, (g :: gs).length ≤ 7 → (∀ x ∈ g :: gs, x < 65536) →
+      ptonWith fx (units (g :: gs) ++ List.replicate (k + 1) 42) wb false =
+        .ok ⟨(units (g :: gs) ++ List.replicate (k + 1) 42).length, storeAll Addr.zero 0 (g :: gs),
+          setBits wb none ((g :: gs).length * 16), false⟩) ∧
+    (∀ a n, isIPv4 a = false → n ≤ 128 →
+      ptonWith fx ((ntop a 40).1 ++ 47 :: decOctet n) true false =
+        .ok ⟨((ntop a 40).1 ++ 47 :: decOctet n).length, a, some n, false⟩) :=
+  ⟨star fx, fun o1 o2 o3 o4 n h1 h2 h3 h4 hn => cidr4 fx o1 o2 o3 o4 n h1 h2 h3 h4 hn,
+   fun o1 h1 => wild4_1 fx o1 h1,
+   fun o1 o2 h1 h2 => wild4 fx o1 o2 h1 h2,
+   fun o1 o2 o3 h1 h2 h3 => wild4_3 fx o1 o2 o3 h1 h2 h3,
+   fun wb g gs k hl hall => wild6 fx wb g gs hl hall k,
+   fun a n h4 hn => ntop_cidr6 fx a h4 n hn⟩
+
+/-- the older name: the three forms proved first -/
 theorem C13_netmask_partial (fx : Bool) :
     (∀ k wb, ptonWith fx (List.replicate (k + 1) 42) wb false = .ok ⟨k + 1, Addr.zero, setBits wb none 0, false⟩) ∧
     (∀ o1 o2 o3 o4 n, o1 < 256 → o2 < 256 → o3 < 256 → o4 < 256 → n ≤ 32 →
@@ -67,8 +103,7 @@ theorem C13_netmask_partial (fx : Bool) :
     (∀ o1 o2, o1 < 256 → o2 < 256 →
       ptonWith fx (decOctet o1 ++ 46 :: (decOctet o2 ++ [46, 42])) true false =
         .ok ⟨(decOctet o1 ++ 46 :: (decOctet o2 ++ [46, 42])).length, mapped4 o1 o2 0 0, some 112, false⟩) :=
-  ⟨star fx, fun o1 o2 o3 o4 n h1 h2 h3 h4 hn => cidr4 fx o1 o2 o3 o4 n h1 h2 h3 h4 hn,
-   fun o1 o2 h1 h2 => wild4 fx o1 o2 h1 h2⟩
+  ⟨(C13_netmask fx).1, (C13_netmask fx).2.1, (C13_netmask fx).2.2.2.1⟩
 
 /-! non-vacuity and sanity of the spec side -/
 
@@ -79,6 +114,14 @@ example : decOctet 10 ++ 46 :: (decOctet 1 ++ [46, 42]) = [49, 48, 46, 49, 46, 4
 example : docParse (quadText 127 0 0 1 ++ 47 :: decOctet 8) = some (mapped4 127 0 0 1, 96 + 8) := by decide
 example : docParse (decOctet 10 ++ 46 :: (decOctet 1 ++ [46, 42])) = some (mapped4 10 1 0 0, 112) := by decide
 example : docParse [42, 42] = some (Addr.zero, 0) := by decide
+/-- the IPv6 texts: `2001:db8:*` and `2001:db8::/32` (the printed form of 2001:db8:: plus "/32") -/
+example : units [0x2001, 0xdb8] ++ List.replicate 1 42 = [50, 48, 48, 49, 58, 100, 98, 56, 58, 42] := by decide
+example : docParse (units [0x2001, 0xdb8] ++ List.replicate 1 42) = some (Addr.ofList [0x2001, 0xdb8, 0, 0, 0, 0, 0, 0], 32) := by decide
+example : (ntop (Addr.ofList [0x2001, 0xdb8, 0, 0, 0, 0, 0, 0]) 40).1 ++ 47 :: decOctet 32
+    = [50, 48, 48, 49, 58, 100, 98, 56, 58, 58, 47, 51, 50] := by decide
+example : docParse ((ntop (Addr.ofList [0x2001, 0xdb8, 0, 0, 0, 0, 0, 0]) 40).1 ++ 47 :: decOctet 32)
+    = some (Addr.ofList [0x2001, 0xdb8, 0, 0, 0, 0, 0, 0], 32) := by decide
+example : storeAll Addr.zero 0 [0x2001, 0xdb8] = Addr.ofList [0x2001, 0xdb8, 0, 0, 0, 0, 0, 0] := by decide
 /-- the mask test can fail and can succeed -/
 example : checkMask (Addr.ofList [1, 2, 3, 4, 5, 6, 7, 8]) (Addr.ofList [1, 2, 3, 4, 5, 6, 7, 9]) 127 = true := by decide
 example : checkMask (Addr.ofList [1, 2, 3, 4, 5, 6, 7, 8]) (Addr.ofList [1, 2, 3, 4, 5, 6, 7, 9]) 128 = false := by decide
